@@ -335,6 +335,36 @@ func PrefixSweep(t *testing.T, registry []Entry) {
 	}
 }
 
+// Feed probes hand-picked inputs (entry name → inputs) exactly as given: for crafted encodings that
+// neither the generator nor the sweeps produce. Unknown entry names are a harness error.
+func Feed(t *testing.T, registry []Entry, kind string, inputs map[string][][]byte) {
+	defer vlib.Done()
+	byName := map[string]*Entry{}
+	for i := range registry {
+		byName[registry[i].Name] = &registry[i]
+	}
+	var names []string
+	for n := range inputs {
+		names = append(names, n)
+	}
+	sort.Strings(names)
+	d := &directTB{t: t}
+	for _, n := range names {
+		e, ok := byName[n]
+		if !ok {
+			t.Errorf("SELFTEST-FAIL hand-picked inputs for unknown entry %s", n)
+			continue
+		}
+		for _, in := range inputs[n] {
+			if e.ExactLen > 0 && len(in) != e.ExactLen {
+				continue
+			}
+			d.replay = map[string]interface{}{"entry": e.Name, "input": fmt.Sprintf("%x", in)}
+			probe(d, e, kind, in)
+		}
+	}
+}
+
 type directTB struct {
 	t      *testing.T
 	replay map[string]interface{}
